@@ -471,9 +471,13 @@ class ProgGen:
             return
         self.in_partial += 1
         self.partials[name] = ""  # guards recursion while generating
-        body = self.block(max(depth, self.max_depth - 1), self.rng.randint(1, 3))
+        body = self.block(self.max_depth - 1 if self.rng.random() < 0.6 else self.max_depth,
+                          self.rng.randint(1, 3))
         stem = name.rsplit("/", 1)[-1].split(".")[0]
         body += self.out(self.rng.choice([stem, stem + ".title", "who", "item.title", "user.name", "forloop.index"]))
+        if self.rng.random() < 0.04:
+            body += self.rng.choice(["{% if %}", "{{ user.name | nosuchfilter }}", "{% endfor %}", "{{ 1 | divided_by: 0 }}",
+                                     "{% render 'missing/deep.html' %}", "{% include 'missing/deep2' %}"])
         self.partials[name] = body
         self.in_partial -= 1
 
@@ -545,7 +549,10 @@ class ProgGen:
         base += self.block(self.max_depth, 1) + "</html>"
         self.partials[names[0]] = base
         for i in range(1, depth_chain):
-            src = self.tag(f"extends '{names[i - 1]}'")
+            parent = names[i - 1]
+            if r.random() < 0.07:
+                parent = r.choice(["layouts/nope", names[i], "p0"])  # missing parent / cycle / not a layout
+            src = self.tag(f"extends '{parent}'")
             for b in r.sample(blocks, r.randint(0, 3)):
                 src += self.tag(f"block {b}") + f"L{i}-{b} " + (self.out("block.super") if r.random() < 0.6 else "") \
                     + self.block(self.max_depth, 1) + self.tag(f"endblock {b}" if r.random() < 0.3 else "endblock")
